@@ -435,6 +435,18 @@ func Verif_C05_TLSF_Search(cfg int) {
 		s.allocRange2(rest)
 		s.free(2, true)
 		s.free(0, true)
+	} else if cfg/10 == 5 {
+		// padded-out recipe: a live lead allocation of symbolic size (so the first hole starts at an arbitrary,
+		// usually misaligned offset), hole of 100 bytes, separator, hole of 200 bytes, separator, 8 trailing free bytes.
+		// An aligned request can be too big for the first hole once padding is added and still fit the second one.
+		s.allocRange("lead", 1, 64)
+		s.allocRange("holeSize", 100, 100)
+		s.allocRange("sepSize", 16, 16)
+		s.allocRange("holeSize", 200, 200)
+		s.allocRange("sepSize", 16, 16)
+		s.allocRange2(s.m.SumFreeSize() - 8)
+		s.free(3, true)
+		s.free(1, true)
 	} else if cfg/10 == 4 {
 		// three holes of concrete sizes 60, 50, 40 (one free list) separated by live 16-byte allocations, freed in any
 		// order, 8 trailing free bytes; then two arbitrary operations (a free next to a hole merges it into
@@ -487,11 +499,11 @@ func Verif_C05_TLSF_Search(cfg int) {
 		verifAssume(size <= 256)
 	}
 	align := 1
-	if cfg/10 < 2 {
+	if cfg/10 < 2 || cfg/10 == 5 {
 		align = pow2("reqAlignLog", 6)
 	}
 	strategy := symStrategy("reqStrategy")
-	bounded := cfg/10 < 2 && verifChoice("bounded", 2) == 1
+	bounded := (cfg/10 < 2 || cfg/10 == 5) && verifChoice("bounded", 2) == 1
 	maxOffset := maxI
 	if bounded {
 		maxOffset = verifNondetInt("maxOffset")
